@@ -498,6 +498,16 @@ func (f *framer) payload() {
 	f.flags |= flagCustomPayload
 }
 
+// frameReadError is returned by readFrame when the underlying reader failed before the whole
+// frame body was consumed. Whatever follows on the connection can not be parsed as frames any more.
+type frameReadError struct {
+	msg string
+	err error
+}
+
+func (e *frameReadError) Error() string { return e.msg + ": " + e.err.Error() }
+func (e *frameReadError) Unwrap() error { return e.err }
+
 // reads a frame form the wire into the framers buffer
 func (f *framer) readFrame(r io.Reader, head *frameHeader) error {
 	if head.length < 0 {
@@ -506,7 +516,7 @@ func (f *framer) readFrame(r io.Reader, head *frameHeader) error {
 		// need to free up the connection to be used again
 		_, err := io.CopyN(ioutil.Discard, r, int64(head.length))
 		if err != nil {
-			return fmt.Errorf("error whilst trying to discard frame with invalid length: %v", err)
+			return &frameReadError{msg: "error whilst trying to discard frame with invalid length", err: err}
 		}
 		return ErrFrameTooBig
 	}
@@ -521,7 +531,7 @@ func (f *framer) readFrame(r io.Reader, head *frameHeader) error {
 	// assume the underlying reader takes care of timeouts and retries
 	n, err := io.ReadFull(r, f.buf)
 	if err != nil {
-		return fmt.Errorf("unable to read frame body: read %d/%d bytes: %v", n, head.length, err)
+		return &frameReadError{msg: fmt.Sprintf("unable to read frame body: read %d/%d bytes", n, head.length), err: err}
 	}
 
 	if head.flags&flagCompress == flagCompress {
